@@ -47,7 +47,12 @@ class C03(Prop):
                 break
         n = h + rng.randint(1, 14)
         names = lang.variables(f) or [c.vars[0]]
-        return {'formula': f, 'data': lang.gen_trace(rng, names, n), 'online_kind': rng.choice(['dt', 'dt_on'])}
+        case = {'formula': f, 'data': lang.gen_trace(rng, names, n), 'online_kind': rng.choice(['dt', 'dt_on'])}
+        if rng.random() < 0.15:
+            # the same durations written with unit suffixes (period 1 s, default unit s)
+            case['mode'] = rng.choice(['end-only', 'begin-only', 'both', 'same-suffix'])
+            case['sseed'] = rng.randrange(1 << 30)
+        return case
 
 
     def judge(self, case):
@@ -60,6 +65,14 @@ class C03(Prop):
         n = len(data[names[0]])
         h = lang.horizon(f)
         text = lang.to_text(f)
+        if case.get('mode'):
+            import random
+            from rtverif.props.c08 import Speller
+            try:
+                text = lang.to_text(f, ivl_printer=Speller(random.Random(case['sseed']), 10 ** 9, 's', case['mode']).ivl)
+            except ValueError:
+                pass
+            v.info['class:unit-suffixes'] = 1
         rel = rel_for(f)
         v.nontrivial = h >= 1 and n > h + 1
         v.info['class:' + ('future-free' if h == 0 and not lang.has_future(f) else
